@@ -666,9 +666,15 @@ func cmp(op Op, a, b *Term) *Term {
 		if b.IsConst() && ubound(a) < b.C {
 			return True
 		}
+		if a.IsConst() && ubound(b) <= a.C {
+			return False
+		}
 	case OUle:
 		if b.IsConst() && ubound(a) <= b.C {
 			return True
+		}
+		if a.IsConst() && ubound(b) < a.C {
+			return False
 		}
 		if a.IsConst() && a.C == 0 {
 			return True
